@@ -378,9 +378,23 @@ func c03(c *core.Ctx, r *core.Report) {
 	})
 
 	rule(r, "C03.R4", "one PoolManager per run: the constructor is called once, outside any loop, only from Run.run; every pool is created from the manager handed to the trigger (a parameter), never from a fresh one", func() {
-		_, newCall := runLoop(c)
-		ctor := an.Callee(newCall)
-		sites := an.CallSitesOf(c, ctor)
+		// the constructors of the manager, by role: functions of internal/workers without receiver handing back a
+		// PoolManager (a variant that delegates to another is one of them; its own call of that other is not a creation site)
+		isCtor := func(t *ssa.Function) bool {
+			return t != nil && core.RelPkg(t) == "internal/workers" && t.Signature.Recv() == nil && t.Parent() == nil &&
+				t.Signature.Results().Len() == 1 && an.IsNamed(t.Signature.Results().At(0).Type(), workersPkg, "PoolManager")
+		}
+		var sites []ssa.CallInstruction
+		for _, fn := range c.AllFuncs {
+			if !core.InModule(fn) || isCtor(an.Outermost(fn)) {
+				continue
+			}
+			for _, call := range an.AllCalls(fn) {
+				if isCtor(an.Callee(call)) {
+					sites = append(sites, call)
+				}
+			}
+		}
 		for _, s := range sites {
 			key := core.FuncName(s.Parent()) + "#new-manager"
 			rel := core.RelPkg(s.Parent())
